@@ -24,7 +24,9 @@ Inductive sop :=
 | SGet (k : nat)
 | SLoop (me to from : N)
 | SNewNat (i : N) (c : ncfg)
-| SDropFrom (i : N).       (* lose everything in flight that node i sent (i = 0: everything) *)
+| SDropFrom (i : N)        (* lose everything in flight that node i sent (i = 0: everything) *)
+| SAlias (i p : N)         (* node i sits behind a port-forwarding router with public address p *)
+| SMute (i : N) (on : bool).   (* from now on everything node i sends is lost (on) / gets through again (off) *)
 
 Record sys := {
   s_nodes : list (N * node);
@@ -32,10 +34,12 @@ Record sys := {
   s_sent : list (N * N * wire);          (* source node, destination address, datagram *)
   s_queue : list nat;                    (* indices not yet delivered, FIFO *)
   s_writes : list (N * list bytes);      (* interface writes not yet popped, per node *)
-  s_nat : list (N * list (N * Z))        (* nodes behind an address-filtering NAT (MockSocket): peer -> mapping expiry *)
+  s_nat : list (N * list (N * Z));       (* nodes behind an address-filtering NAT (MockSocket): peer -> mapping expiry *)
+  s_alias : list (N * N);                (* node -> public address of a port-forwarding router without hair-pinning *)
+  s_muted : list N                       (* nodes whose datagrams are currently lost on the way out *)
 }.
 
-Definition sys0 : sys := {| s_nodes := []; s_now := 1; s_sent := []; s_queue := []; s_writes := []; s_nat := [] |}.
+Definition sys0 : sys := {| s_nodes := []; s_now := 1; s_sent := []; s_queue := []; s_writes := []; s_nat := []; s_alias := []; s_muted := [] |}.
 
 Inductive sout :=
 | SONone
@@ -73,12 +77,12 @@ Definition run_event (salts : list (N * N)) (s : sys) (i : N) (e : event) : sys 
       let base := length (s_sent s) in
       ({| s_nodes := aset (s_nodes s) i n'; s_now := s_now s;
           s_sent := s_sent s ++ map (fun x => (i, fst x, snd x)) em;
-          s_queue := s_queue s ++ seq base (length em);
+          s_queue := s_queue s ++ (if existsb (N.eqb i) (s_muted s) then [] else seq base (length em));
           s_writes := add_writes (s_writes s) i (writes_of fx);
           s_nat := match aget (s_nat s) i with
                    | Some m => aset (s_nat s) i (fold_left (fun acc x => aset acc (fst x) (s_now s + 300)%Z) em m)
                    | None => s_nat s
-                   end |}, em)
+                   end; s_alias := s_alias s; s_muted := s_muted s |}, em)
   end.
 
 Definition has_node (s : sys) (i : N) : bool := ahas (s_nodes s) i.
@@ -90,13 +94,25 @@ Definition nat_admits (s : sys) (dst src : N) : bool :=
   | Some m => match aget m src with Some exp => (s_now s <=? exp)%Z | None => false end
   end.
 
+(* port forwarding without hair-pinning: a node with a public address P is seen as P by everybody, datagrams
+   addressed to P reach it, except its own (dropped by the router) *)
+Definition seen_as (s : sys) (node : N) : N := match aget (s_alias s) node with Some p => p | None => node end.
+Definition owner_of (s : sys) (addr : N) : option N :=
+  match find (fun e => snd e =? addr) (s_alias s) with Some e => Some (fst e) | None => None end.
+(* where a datagram of node `from` addressed to `dst` ends up: Some (receiving node, source address it sees) *)
+Definition route (s : sys) (from dst : N) : option (N * N) :=
+  match owner_of s dst with
+  | Some j => if j =? from then None else Some (j, seen_as s from)
+  | None => Some (dst, seen_as s from)
+  end.
+
 Definition deliver_to (salts : list (N * N)) (s : sys) (dst src : N) (w : wire) : sys * sout :=
   if has_node s dst then
     if nat_admits s dst src then let '(s', em) := run_event salts s dst (ENet src w) in (s', SOEmit em) else (s, SONat)
   else (s, SOMissing).
 
 Definition unqueue (s : sys) (k : nat) : sys :=
-  {| s_nodes := s_nodes s; s_now := s_now s; s_sent := s_sent s; s_queue := filter (fun x => negb (Nat.eqb x k)) (s_queue s); s_writes := s_writes s; s_nat := s_nat s |}.
+  {| s_nodes := s_nodes s; s_now := s_now s; s_sent := s_sent s; s_queue := filter (fun x => negb (Nat.eqb x k)) (s_queue s); s_writes := s_writes s; s_nat := s_nat s; s_alias := s_alias s; s_muted := s_muted s |}.
 
 Fixpoint deliver_all (fuel : nat) (salts : list (N * N)) (s : sys) (acc : list (list (N * wire))) : sys * list (list (N * wire)) :=
   match fuel with
@@ -105,15 +121,19 @@ Fixpoint deliver_all (fuel : nat) (salts : list (N * N)) (s : sys) (acc : list (
       match s_queue s with
       | [] => (s, acc)
       | k :: q =>
-          let s1 := {| s_nodes := s_nodes s; s_now := s_now s; s_sent := s_sent s; s_queue := q; s_writes := s_writes s; s_nat := s_nat s |} in
+          let s1 := {| s_nodes := s_nodes s; s_now := s_now s; s_sent := s_sent s; s_queue := q; s_writes := s_writes s; s_nat := s_nat s; s_alias := s_alias s; s_muted := s_muted s |} in
           match nth_error (s_sent s1) k with
           | None => deliver_all f salts s1 acc
-          | Some (src, dst, w) =>
-              if has_node s1 dst then
-                if nat_admits s1 dst src then
-                  let '(s2, em) := run_event salts s1 dst (ENet src w) in deliver_all f salts s2 (acc ++ [em])
-                else deliver_all f salts s1 (acc ++ [[(0, WBadInit)]])      (* marker: filtered by NAT *)
-              else deliver_all f salts s1 (acc ++ [[]])
+          | Some (src0, dst0, w) =>
+              match route s1 src0 dst0 with
+              | None => deliver_all f salts s1 (acc ++ [[]])
+              | Some (dst, src) =>
+                  if has_node s1 dst then
+                    if nat_admits s1 dst src then
+                      let '(s2, em) := run_event salts s1 dst (ENet src w) in deliver_all f salts s2 (acc ++ [em])
+                    else deliver_all f salts s1 (acc ++ [[(0, WBadInit)]])      (* marker: filtered by NAT *)
+                  else deliver_all f salts s1 (acc ++ [[]])
+              end
           end
       end
   end.
@@ -121,15 +141,19 @@ Fixpoint deliver_all (fuel : nat) (salts : list (N * N)) (s : sys) (acc : list (
 Definition sstep (salts : list (N * N)) (s : sys) (o : sop) : sys * sout :=
   match o with
   | SNew i c =>
-      ({| s_nodes := aset (s_nodes s) i (node_new c (s_now s)); s_now := s_now s; s_sent := s_sent s; s_queue := s_queue s; s_writes := s_writes s; s_nat := s_nat s |}, SONone)
-  | STime t => ({| s_nodes := s_nodes s; s_now := t; s_sent := s_sent s; s_queue := s_queue s; s_writes := s_writes s; s_nat := s_nat s |}, SONone)
+      ({| s_nodes := aset (s_nodes s) i (node_new c (s_now s)); s_now := s_now s; s_sent := s_sent s; s_queue := s_queue s; s_writes := s_writes s; s_nat := s_nat s; s_alias := s_alias s; s_muted := s_muted s |}, SONone)
+  | STime t => ({| s_nodes := s_nodes s; s_now := t; s_sent := s_sent s; s_queue := s_queue s; s_writes := s_writes s; s_nat := s_nat s; s_alias := s_alias s; s_muted := s_muted s |}, SONone)
   | SConnect i j => let '(s', em) := run_event salts s i (EConnect j) in (s', SOEmit em)
   | SReconnect i j => let '(s', _) := run_event salts s i (EAddReconnect [j]) in (s', SONone)
   | SHousekeep i => let '(s', em) := run_event salts s i EHousekeep in (s', SOEmit em)
   | SDeliver k =>
       match nth_error (s_sent s) k with
       | None => (s, SOMissing)
-      | Some (src, dst, w) => deliver_to salts (unqueue s k) dst src w
+      | Some (src0, dst0, w) =>
+          match route s src0 dst0 with
+          | None => (unqueue s k, SOMissing)
+          | Some (dst, src) => deliver_to salts (unqueue s k) dst src w
+          end
       end
   | SInject k dst src =>
       match nth_error (s_sent s) k with None => (s, SOMissing) | Some (_, _, w) => deliver_to salts s dst src w end
@@ -152,7 +176,7 @@ Definition sstep (salts : list (N * N)) (s : sys) (o : sop) : sys * sout :=
   | SAll => let '(s', l) := deliver_all 401 salts s [] in (s', SOAll l)
   | SIface i f => let '(s', em) := run_event salts s i (EIface f) in (s', SOEmit em)
   | SPopWrites i =>
-      ({| s_nodes := s_nodes s; s_now := s_now s; s_sent := s_sent s; s_queue := s_queue s; s_writes := aset (s_writes s) i []; s_nat := s_nat s |},
+      ({| s_nodes := s_nodes s; s_now := s_now s; s_sent := s_sent s; s_queue := s_queue s; s_writes := aset (s_writes s) i []; s_nat := s_nat s; s_alias := s_alias s; s_muted := s_muted s |},
        SOWrites (match aget (s_writes s) i with Some l => l | None => [] end))
   | SDump i => match aget (s_nodes s) i with Some n => (s, SODump n) | None => (s, SOMissing) end
   | SLoop me to from =>
@@ -163,13 +187,20 @@ Definition sstep (salts : list (N * N)) (s : sys) (o : sop) : sys * sout :=
   | SGet k => (s, match nth_error (s_sent s) k with Some _ => SOGet | None => SOMissing end)
   | SNewNat i c =>
       ({| s_nodes := aset (s_nodes s) i (node_new c (s_now s)); s_now := s_now s; s_sent := s_sent s; s_queue := s_queue s;
-          s_writes := s_writes s; s_nat := aset (s_nat s) i [] |}, SONone)
+          s_writes := s_writes s; s_nat := aset (s_nat s) i []; s_alias := s_alias s; s_muted := s_muted s |}, SONone)
+  | SMute i on =>
+      ({| s_nodes := s_nodes s; s_now := s_now s; s_sent := s_sent s; s_queue := s_queue s; s_writes := s_writes s;
+          s_nat := s_nat s; s_alias := s_alias s;
+          s_muted := if on then i :: s_muted s else filter (fun x => negb (x =? i)) (s_muted s) |}, SONone)
+  | SAlias i p =>
+      ({| s_nodes := s_nodes s; s_now := s_now s; s_sent := s_sent s; s_queue := s_queue s; s_writes := s_writes s;
+          s_nat := s_nat s; s_alias := aset (s_alias s) i p; s_muted := s_muted s |}, SONone)
   | SDropFrom i =>
       ({| s_nodes := s_nodes s; s_now := s_now s; s_sent := s_sent s;
           s_queue := filter (fun k => match nth_error (s_sent s) k with
                                       | Some (src, _, _) => negb ((i =? 0) || (src =? i))
                                       | None => false end) (s_queue s);
-          s_writes := s_writes s; s_nat := s_nat s |}, SONone)
+          s_writes := s_writes s; s_nat := s_nat s; s_alias := s_alias s; s_muted := s_muted s |}, SONone)
   end.
 
 (* the salts oracle is given per operation *)
